@@ -378,6 +378,16 @@ func (c *colCtx) runOp(op string, emit func(*ColInstance)) {
 			}
 		}
 	}
+	for _, f := range storeFiles(c.st, false) { // the out-of-order inputs of a merge count as well
+		l, _ := fileLayout(f, c.in)
+		for _, ch := range l {
+			for i, seg := range ch.T {
+				if len(seg) > c.maxRows || (i < len(ch.T)-1 && len(seg) != c.maxRows) {
+					inst.IllForm = true
+				}
+			}
+		}
+	}
 	inst.SegChg = c.segChg
 	saveBefore(c.dir, &beforeFile{IllForm: inst.IllForm, SegChg: c.segChg, MaxSegs: inst.MaxSegs, Op: op, Hist: strings.Join(append(append([]string{}, c.hist...), op), " "), Mode: c.mode,
 		MaxRows: c.maxRows, SegLimit: c.segLimit, Dump: flatDump(before), Bad: len(bad0) > 0})
@@ -708,8 +718,8 @@ func runColCase(idx int, r *gen.Rand, work string, kind int, emit func(*ColInsta
 		// and the server restarted): usually a smaller one (inner segments shorter than max-rows), sometimes a bigger one
 		_ = c.st.Close()
 		nm := 2 * c.maxRows
-		if r.Chance(1, 4) {
-			nm = c.maxRows / 2
+		if r.Chance(1, 4) && c.maxRows >= 16 {
+			nm = c.maxRows / 2 // stays a multiple of 8 (the bitmap code of the merge column writer needs that)
 		}
 		c.segChg = fmt.Sprint(c.maxRows)
 		c.hist = append(c.hist, fmt.Sprintf("maxrows%d->%d", c.maxRows, nm))
